@@ -151,3 +151,128 @@ mod neon;
     httparse_simd_neon_intrinsics,
 ))]
 pub use self::neon::*;
+
+/// Verification hooks: direct access to each scanner backend that exists in
+/// this build configuration (same cfg conditions as the modules above).
+#[cfg(httparse_verif)]
+#[allow(missing_docs)]
+pub mod verif_scan {
+    use crate::iter::Bytes;
+
+    pub fn swar_uri(b: &mut Bytes<'_>) {
+        super::swar::match_uri_vectored(b)
+    }
+    pub fn swar_value(b: &mut Bytes<'_>) {
+        super::swar::match_header_value_vectored(b)
+    }
+    pub fn swar_name(b: &mut Bytes<'_>) {
+        super::swar::match_header_name_vectored(b)
+    }
+
+    /// The scanners the parser itself uses in this build.
+    pub fn dispatch_uri(b: &mut Bytes<'_>) {
+        super::match_uri_vectored(b)
+    }
+    pub fn dispatch_value(b: &mut Bytes<'_>) {
+        super::match_header_value_vectored(b)
+    }
+    pub fn dispatch_name(b: &mut Bytes<'_>) {
+        super::match_header_name_vectored(b)
+    }
+
+    /// Returns false (and does nothing) if the backend is not compiled in or
+    /// the CPU lacks the feature.
+    pub fn sse42_uri(_b: &mut Bytes<'_>) -> bool {
+        #[cfg(all(
+            httparse_simd,
+            not(httparse_simd_target_feature_avx2),
+            any(target_arch = "x86", target_arch = "x86_64"),
+        ))]
+        if is_x86_feature_detected!("sse4.2") {
+            // SAFETY: feature detected just above
+            unsafe { super::sse42::match_uri_vectored(_b) };
+            return true;
+        }
+        false
+    }
+    pub fn sse42_value(_b: &mut Bytes<'_>) -> bool {
+        #[cfg(all(
+            httparse_simd,
+            not(httparse_simd_target_feature_avx2),
+            any(target_arch = "x86", target_arch = "x86_64"),
+        ))]
+        if is_x86_feature_detected!("sse4.2") {
+            // SAFETY: feature detected just above
+            unsafe { super::sse42::match_header_value_vectored(_b) };
+            return true;
+        }
+        false
+    }
+    pub fn avx2_uri(_b: &mut Bytes<'_>) -> bool {
+        #[cfg(all(
+            httparse_simd,
+            any(
+                httparse_simd_target_feature_avx2,
+                not(httparse_simd_target_feature_sse42),
+            ),
+            any(target_arch = "x86", target_arch = "x86_64"),
+        ))]
+        if is_x86_feature_detected!("avx2") {
+            // SAFETY: feature detected just above
+            unsafe { super::avx2::match_uri_vectored(_b) };
+            return true;
+        }
+        false
+    }
+    pub fn avx2_value(_b: &mut Bytes<'_>) -> bool {
+        #[cfg(all(
+            httparse_simd,
+            any(
+                httparse_simd_target_feature_avx2,
+                not(httparse_simd_target_feature_sse42),
+            ),
+            any(target_arch = "x86", target_arch = "x86_64"),
+        ))]
+        if is_x86_feature_detected!("avx2") {
+            // SAFETY: feature detected just above
+            unsafe { super::avx2::match_header_value_vectored(_b) };
+            return true;
+        }
+        false
+    }
+
+    /// Force the cached runtime backend id; false if this build has no
+    /// runtime dispatch.
+    pub fn set_runtime_feature(_feature: u8) -> bool {
+        #[cfg(all(
+            httparse_simd,
+            not(any(
+                httparse_simd_target_feature_sse42,
+                httparse_simd_target_feature_avx2,
+            )),
+            any(target_arch = "x86", target_arch = "x86_64"),
+        ))]
+        {
+            super::runtime::verif_set_runtime_feature(_feature);
+            return true;
+        }
+        #[allow(unreachable_code)]
+        false
+    }
+    /// The cached runtime backend id, or None without runtime dispatch.
+    pub fn get_runtime_feature() -> Option<u8> {
+        #[cfg(all(
+            httparse_simd,
+            not(any(
+                httparse_simd_target_feature_sse42,
+                httparse_simd_target_feature_avx2,
+            )),
+            any(target_arch = "x86", target_arch = "x86_64"),
+        ))]
+        {
+            return Some(super::runtime::verif_get_runtime_feature());
+        }
+        #[allow(unreachable_code)]
+        None
+    }
+}
